@@ -19,7 +19,7 @@ from collections import Counter
 from hypothesis import strategies as st
 
 from pv.core import Sub, call, check, short
-from pv.codec import build, Env, token, vtoken, s_scalar, s_dt, S_INTS, S_FLOATS, S_STRS
+from pv.codec import build, Env, token, vtoken, s_scalar, s_dt, S_INTS, S_FLOATS, S_STRS, D0
 
 ASSUMPTIONS = [
     'cells are None, ints, finite floats, strings, datetimes (no NaN: NaN key identity is C02 territory; no bools; no +-inf)',
@@ -124,14 +124,70 @@ def _tclass(v):
     return v[0]
 
 
+_LARGE_N = [64, 65, 100, 128, 200]
+_WIDE_N = [24, 40, 64, 100, 128, 200]
+
+
+def _wide_label(kind, j):
+    """the j-th of the many y labels of a wide pivot (a value *spec*)"""
+    if kind == 'int' or (kind == 'mixed' and j % 3 == 0):
+        return j
+    if kind == 'str' or (kind == 'mixed' and j % 3 == 1):
+        return 'c%02i' % j
+    return ['dt', D0 + j, 0]
+
+
+def _expand(spec):
+    """
+    {column: [cell specs]} of the table. Small tables are written out in spec['data']. Large tables are spec['data'] (a pattern of a
+    few rows) blown up by spec['tile'] = {n, layout, pos, [wide]}:
+        layout 'tiled'  : row i = pattern row i % m            (keys interleaved, every group is spread over the whole table)
+        layout 'blocks' : row i = pattern row i * m // n       (equal keys already adjacent, but blocks not in key order)
+        pos             : columns that hold a distinct scrambled int per row instead (so that order inside groups is visible)
+        wide            : {col, labels, kind}: that column cycles through `labels` (>= 20) distinct pivot labels
+    """
+    cols = list(spec['cols'])
+    tile = spec.get('tile')
+    if not tile:
+        return {c: list(spec['data'][c]) for c in cols}
+    n, m = tile['n'], len(spec['data'][cols[0]])
+    src = [i % m for i in range(n)] if tile['layout'] == 'tiled' else [i * m // n for i in range(n)]
+    data = {c: [spec['data'][c][j] for j in src] for c in cols}
+    for c in tile.get('pos', []):
+        data[c] = [(i * 37 + 11) % 257 for i in range(n)]            # distinct for n < 257, not monotone
+    wide = tile.get('wide')
+    if wide:
+        data[wide['col']] = [_wide_label(wide['kind'], (i * 7) % wide['labels']) for i in range(n)]
+    return data
+
+
 def _build_table(spec):
     from pyg_base import dictable
     env = Env()
     cols = list(spec['cols'])
-    data = {c: [build(v, env) for v in spec['data'][c]] for c in cols}
+    sdata = _expand(spec)
+    data = {c: [build(v, env) for v in sdata[c]] for c in cols}
     n = len(data[cols[0]])
     d = dictable({c: list(data[c]) for c in cols})
     return d, cols, data, n
+
+
+def _snapshot(t):
+    return {k: list(v) for k, v in dict.items(t)}
+
+
+def _check_unchanged(what, t, snap, desc):
+    """the table a regrouping was called on still holds the very same cells"""
+    now = {k: v for k, v in dict.items(t)}
+    ok = len(now) == len(snap) and all(k in now and len(now[k]) == len(v) and all(a is b for a, b in zip(now[k], v)) for k, v in snap.items())
+    check(ok, '%s modified the table it was called on: %s is now %s', what, desc, short(now, 300))
+
+
+def _check_again(what, first, second):
+    """calling the inverse a second time gives the same table again (the regrouped table is not used up by the first call)"""
+    a, b = _columns_of(first), _columns_of(second)
+    ok = len(a) == len(b) and all(any(k is k2 or k == k2 for k2 in b) for k in a) and all(token(v) == token(b[k]) for k, v in a.items())
+    check(ok, '%s called a second time gives a different result: first %s, then %s', what, short(a, 250), short(b, 250))
 
 
 def _columns_of(t):
@@ -185,6 +241,10 @@ def _key_classes(spec, by):
             cls.append('int_and_float_key')
     if mixed:
         cls.append('mixed_type_key')
+    if any(v is None for c in by for v in spec['data'][c]):
+        cls.append('none_key')
+    if any(v is None or (isinstance(v, (int, float, str)) and not v) for c in by for v in spec['data'][c]):
+        cls.append('falsy_key')          # None, 0, 0.0, '' as a key cell
     return sorted(set(cls)), mixed
 
 
@@ -235,11 +295,36 @@ def _regroup_case(draw, tier, with_grp=False):
     nby = draw(st.sampled_from([1, 1] + list(range(1, ncols))))
     by = list(draw(st.permutations(cols))[:nby])
     cols = list(draw(st.permutations(cols)))
-    columns = _rows(draw, [_cells(draw, c in by) for c in cols], 0, top)
+    strategies = [_cells(draw, c in by) for c in cols]
+    columns = _rows(draw, strategies, 0, top)
     spec = dict(cols=cols, data=dict(zip(cols, columns)), by=by, form=draw(st.sampled_from(['names', 'list'])))
+    if draw(st.integers(0, 39)) == 23 and len(columns[0]) >= 2:
+        # a LARGE table with few distinct keys (big groups): the pattern drawn above blown up to 64..200 rows (see _expand)
+        spec['tile'] = dict(n=draw(st.sampled_from(_LARGE_N)), layout=draw(st.sampled_from(['tiled', 'blocks'])),
+                            pos=[c for c, s in zip(cols, strategies) if s is None] or [[c for c in cols if c not in by][0]])
     if with_grp:
         spec['grp'] = draw(st.sampled_from(['grp', 'grp', 'g']))
     return spec
+
+
+def _shape_classes(spec, n, cols, by, data, ordered_groups):
+    """class labels about size, layout and order; ordered_groups = the model groups in the order of the regrouped table"""
+    cls = []
+    if n == 1:
+        cls.append('one_row')
+    if n >= 64:
+        cls += ['rows>=64', 'rows=%i' % n, 'large_' + spec['tile']['layout'], 'biggest_group>=%i' % (16 if max(len(g[1]) for g in ordered_groups) >= 16 else 2)]
+    if len(by) >= 2 and [c for c in cols if c in by] != list(by):
+        cls.append('by_not_in_column_order')
+    if ordered_groups and len(ordered_groups) >= 2:
+        if len(ordered_groups[0][1]) >= 2:
+            cls.append('dup_in_first_group')
+        if len(ordered_groups[-1][1]) >= 2:
+            cls.append('dup_in_last_group')
+    rows = [tuple(token(data[c][i]) for c in cols) for i in range(min(n, 20))]
+    if len(set(rows)) < len(rows):
+        cls.append('identical_rows')
+    return cls
 
 
 # ----------------------------------------------------------------------------- listby / unlist
@@ -254,8 +339,10 @@ def run_listby(spec):
     what = 'listby(%s)' % (', '.join(repr(a) for a in args))
     keys = [tuple(data[c][i] for c in by) for i in range(n)]
     groups = _groups(keys)
+    snap = _snapshot(d)
 
     L = call(what, d.listby, *args)
+    _check_unchanged(what, d, snap, desc)
     Lc, ln = _check_table('%s on %s' % (what, desc), L, cols, dictable)
     got_keys = [tuple(Lc[c][i] for c in by) for i in range(ln)]
     if n == 0:
@@ -301,6 +388,8 @@ def run_listby(spec):
         prev_key = k
         r += len(pos)
     check(len(seen) == len(groups), '%s.unlist() on %s lost the keys %s', what, desc, [g[0] for gi, g in enumerate(groups) if gi not in seen])
+    _check_again('%s.unlist() on %s' % (what, desc), U, call('%s.unlist() again' % what, L.unlist))
+    _check_unchanged('%s.unlist()' % what, d, snap, desc)
 
     dup = any(len(g[1]) >= 2 for g in groups)
     kcls, mixed = _key_classes(spec, by)
@@ -313,8 +402,11 @@ def run_listby(spec):
         cls.append('one_key')
     if any(len(g[1]) >= 2 and any(not _same(data[c][g[1][0]], data[c][p]) for c in others for p in g[1][1:]) for g in groups):
         cls.append('order_visible')       # a reordering inside some group would change a listed cell
-    if [i for g in sorted(groups, key=lambda g: g[1][0]) for i in g[1]] != [p for gi in seen for p in groups[gi][1]]:
+    if [p for gi in seen for p in groups[gi][1]] != list(range(n)):
         cls.append('reordered')
+    elif dup and len(groups) >= 2:
+        cls.append('already_sorted_with_dups')        # a cheap "is it sorted already" test must still group the duplicates
+    cls += _shape_classes(spec, n, cols, by, data, [groups[gi] for gi in seen])
     nt = dup and len(groups) >= 2
     return dict(nt=nt, cls=cls)
 
@@ -334,7 +426,9 @@ def run_groupby(spec):
     keys = [tuple(data[c][i] for c in by) for i in range(n)]
     groups = _groups(keys)
 
+    snap = _snapshot(d)
     G = call(what, lambda: d.groupby(*args, **kw))
+    _check_unchanged(what, d, snap, desc)
     ungroup_args = [] if gname == 'grp' else [gname]
     if n == 0:
         check(isinstance(G, dictable) and all(len(v) == 0 for v in _columns_of(G).values()), '%s of an empty table is not empty: %s', what, G)
@@ -369,6 +463,8 @@ def run_groupby(spec):
         missing = list((exp - got).elements())[:3]
         extra = list((got - exp).elements())[:3]
         check(False, '%s.ungroup() on %s does not restore the multiset of rows: missing %s, extra %s', what, desc, missing, extra)
+    _check_again('%s.ungroup() on %s' % (what, desc), R, call('%s.ungroup() again' % what, G.ungroup, *ungroup_args))
+    _check_unchanged('%s.ungroup()' % what, d, snap, desc)
 
     dup = any(len(g[1]) >= 2 for g in groups)
     kcls, mixed = _key_classes(spec, by)
@@ -379,6 +475,7 @@ def run_groupby(spec):
         cls.append('all_keys_unique')
     if any(len(g[1]) == 1 for g in groups) and dup:
         cls.append('single_and_multi_row_groups')
+    cls += _shape_classes(spec, n, cols, by, data, [groups[gi] for gi in idx])
     nt = dup and len(groups) >= 2
     return dict(nt=nt, cls=cls)
 
@@ -431,8 +528,19 @@ def _pivot_case(draw, tier):
                 keep.append(i)
         data = {c: [data[c][i] for i in keep] for c in cols}
     order = list(draw(st.permutations(cols)))           # column order of the table is independent of the roles
-    return dict(cols=order, data={c: data[c] for c in order}, x=x, xform=draw(st.sampled_from(['str', 'list'])) if nx == 1 else 'list',
-                y=y, z=z, agg=agg, ykind=ykind, method=draw(st.sampled_from(['xyz', 'pivot'])))
+    spec = dict(cols=order, data={c: data[c] for c in order}, x=x, xform=draw(st.sampled_from(['str', 'list'])) if nx == 1 else 'list',
+                y=y, z=z, agg=agg, ykind=ykind, method=draw(st.sampled_from(['xyz', 'pivot'])),
+                aggform=draw(st.sampled_from(['fn', 'fn', 'list1', 'list2'])))
+    size = draw(st.integers(0, 39))
+    if size in (23, 31) and len(data[y]) >= 2:
+        # 23: a LARGE table (the pattern blown up, see _expand); 31: a WIDE one, whose y column cycles through 20-30 labels
+        tile = dict(n=draw(st.sampled_from(_LARGE_N)), layout=draw(st.sampled_from(['tiled', 'blocks'])), pos=[] if agg == 'sum' else [z])
+        if size == 31:
+            tile['n'] = draw(st.sampled_from(_WIDE_N))
+            tile['wide'] = dict(col=y, labels=draw(st.integers(20, 30)), kind=draw(st.sampled_from(['int', 'str', 'mixed'])))
+            spec['ykind'] = tile['wide']['kind']
+        spec['tile'] = tile
+    return spec
 
 
 def _fold_sum(zs):
@@ -449,9 +557,14 @@ def run_pivot(spec):
     aggs = {'none': (None, lambda zs: list(zs)), 'last': (last, lambda zs: zs[-1]), 'sum': (sum, _fold_sum), 'len': (len, lambda zs: len(zs)),
             'tuple': (tuple, lambda zs: tuple(zs))}
     agg, model_agg = aggs[spec['agg']]
+    aggform = spec.get('aggform', 'fn')
+    if aggform == 'list1':
+        agg = [] if agg is None else [agg]                 # "agg: None/callable or list of callables"
+    elif aggform == 'list2':
+        agg = [list] if agg is None else [list, agg]       # applied one after the other: list(values) first changes nothing
     xarg = x[0] if spec['xform'] == 'str' else list(x)
     desc = short({c: data[c] for c in cols}, 400)
-    what = '%s(%r, %r, %r, %s)' % (spec['method'], xarg, y, z, spec['agg'])
+    what = '%s(%r, %r, %r, %s)' % (spec['method'], xarg, y, z, {'fn': '%s', 'list1': '[%s]', 'list2': '[list, %s]'}[aggform] % spec['agg'])
 
     xkeys = [tuple(data[c][i] for c in x) for i in range(n)]
     xgroups = _groups(xkeys)                                   # distinct x keys
@@ -462,7 +575,9 @@ def run_pivot(spec):
         yi = [gi for gi, g in enumerate(ygroups) if i in g[1]][0]
         cells.setdefault((xi, yi), []).append(data[z][i])
 
+    snap = _snapshot(d)
     P = call(what, getattr(d, spec['method']), xarg, y, z, agg)
+    _check_unchanged(what, d, snap, desc)
     check(isinstance(P, dictable), '%s returned %s', what, type(P).__name__)
     Pc = _columns_of(P)
     for c in x:
@@ -512,6 +627,8 @@ def run_pivot(spec):
             return (xgroups[t[0]][0], ygroups[t[1]][0][0], t[2])
         check(False, '%s on %s, None cells dropped, does not restore the (x, y, z) rows: missing %s, extra %s', uwhat, desc,
               [show(t) for t in (exp - got).elements()][:3], [show(t) for t in (got - exp).elements()][:3])
+    _check_again('%s on %s' % (uwhat, desc), U, call(uwhat + ' again', P.unpivot, xarg, ycol, zcol))
+    _check_unchanged(uwhat, d, snap, desc)
 
     dup_xy = any(len(zs) >= 2 for zs in cells.values())
     none_cell = len(cells) < len(xgroups) * len(ygroups)
@@ -527,6 +644,24 @@ def run_pivot(spec):
     cls += kcls
     if len(cols) > len(x) + 2:
         cls.append('extra_column')
+    cls.append('aggform=' + aggform)
+    vals = [model_agg(zs) for zs in cells.values()]
+    if any(isinstance(v, (int, float, str, tuple)) and not v for v in vals):
+        cls.append('falsy_cell')            # a cell holding 0, 0.0, '' or (): present, so it must not be confused with "no row"
+    if len(ygroups) == 1:
+        cls.append('one_label')
+    if len(xgroups) == 1:
+        cls.append('one_x_key')
+    if len(xgroups) == 1 and len(ygroups) == 1:
+        cls.append('pivot_1x1')
+    if n == 1:
+        cls.append('one_row')
+    if n >= 64:
+        cls += ['rows>=64', 'large_' + spec['tile']['layout']]
+    if len(ygroups) >= 20:
+        cls.append('labels>=20')
+    if [c for c in cols if c in x] != list(x):
+        cls.append('x_not_in_column_order')
     nt = len(xgroups) >= 2 and len(ygroups) >= 2 and (dup_xy or none_cell)
     return dict(nt=nt, cls=cls)
 
@@ -541,21 +676,25 @@ def _label_of(lab, yv):
 # ----------------------------------------------------------------------------- registry
 
 SUBS = [
-    Sub('listby_unlist', lambda tier: _regroup_case(tier), run_listby, quick=4000, thorough=25000,
+    Sub('listby_unlist', lambda tier: _regroup_case(tier), run_listby, quick=3000, thorough=20000,
         rule='tables of 0-9 rows x 2-4 columns (thorough: 0-14 x 2-5), cells None/ints/floats/strings/datetimes with heavy duplication in key columns '
              '(small value pools, homogeneous and mixed-type, int/float twins); keys = a non-empty proper subset in any order, as *names or one list; column names nested in each other in half of the cases. '
              'oracle: nested-loop grouping of the spec; listby has exactly one row per distinct key, other cells list the key\'s values in row order; '
              'unlist = contiguous key blocks, each the key\'s rows in original order, blocks increasing under cmp (and natively where comparable). '
              'non-trivial = some key with >= 2 rows and >= 2 distinct keys',
         floor=0.2, class_floors={'mixed_type_key': 0.15, 'int_and_float_key': 0.03, 'order_visible': 0.2, 'reordered': 0.2, 'nkeys=2': 0.1, 'all_keys_unique': 0.05, 'empty': 0.005,
-                                 'colname_substring_of_key': 0.08, 'colname_substring_of_single_key': 0.04, 'key_substring_of_colname': 0.08}),
-    Sub('groupby_ungroup', lambda tier: _regroup_case(tier, with_grp=True), run_groupby, quick=4000, thorough=25000,
+                                 'colname_substring_of_key': 0.08, 'colname_substring_of_single_key': 0.04, 'key_substring_of_colname': 0.08,
+                                 'rows>=64': 0.008, 'biggest_group>=16': 0.005, 'already_sorted_with_dups': 0.02, 'falsy_key': 0.3, 'none_key': 0.15, 'one_row': 0.01,
+                                 'by_not_in_column_order': 0.05, 'dup_in_first_group': 0.2, 'dup_in_last_group': 0.2, 'identical_rows': 0.1}),
+    Sub('groupby_ungroup', lambda tier: _regroup_case(tier, with_grp=True), run_groupby, quick=3000, thorough=20000,
         rule='same tables and keys as listby_unlist, default and custom grp column name. oracle: one row per distinct key, each sub-table holds exactly '
              'the other columns of the key\'s rows in row order, sizes add up to len(d), ungroup() has the original columns and the original multiset '
              'of rows (key cells by ==, other cells by type and value). non-trivial = some key with >= 2 rows and >= 2 distinct keys',
         floor=0.2, class_floors={'mixed_type_key': 0.15, 'single_and_multi_row_groups': 0.15, 'grp=g': 0.1, 'all_keys_unique': 0.05, 'empty': 0.005,
-                                 'colname_substring_of_key': 0.08, 'colname_substring_of_single_key': 0.04, 'key_substring_of_colname': 0.08}),
-    Sub('pivot_unpivot', lambda tier: _pivot_case(tier), run_pivot, quick=4000, thorough=25000,
+                                 'colname_substring_of_key': 0.08, 'colname_substring_of_single_key': 0.04, 'key_substring_of_colname': 0.08,
+                                 'rows>=64': 0.008, 'biggest_group>=16': 0.005, 'falsy_key': 0.3, 'none_key': 0.15, 'one_row': 0.01,
+                                 'by_not_in_column_order': 0.05, 'dup_in_first_group': 0.2, 'dup_in_last_group': 0.2, 'identical_rows': 0.1}),
+    Sub('pivot_unpivot', lambda tier: _pivot_case(tier), run_pivot, quick=3000, thorough=20000,
         rule='non-empty tables of 1-9 rows (thorough 1-14), x = 1-2 mixed-type key columns, y = strings | ints | floats | datetimes | a mix of strings, ints and datetimes, '
              'z non-None, optional bystander column, agg in None/last/sum/len/tuple, nested column names in half of the cases, a quarter of the cases with unique (x, y) pairs by construction. '
              'oracle: nested-loop model {(x key, y value): z values in row order}; pivot rows <-> distinct x keys and label columns <-> distinct y values '
@@ -563,5 +702,7 @@ SUBS = [
              'non-trivial = >= 2 x keys and >= 2 y values and (an aggregated duplicate or a None cell)',
         floor=0.2, class_floors={'dup_xy': 0.2, 'unique_xy': 0.2, 'none_cell': 0.3, 'mixed_type_key': 0.15, 'nx=2': 0.2, 'agg=none': 0.1, 'agg=last': 0.1, 'agg=sum': 0.1, 'agg=len': 0.1, 'agg=tuple': 0.1,
                                  'colname_substring_of_key': 0.08, 'key_substring_of_colname': 0.08,
+                                 'rows>=64': 0.008, 'labels>=20': 0.008, 'falsy_cell': 0.08, 'falsy_key': 0.3, 'pivot_1x1': 0.03, 'one_label': 0.1, 'one_x_key': 0.05,
+                                 'one_row': 0.02, 'aggform=list1': 0.1, 'aggform=list2': 0.1, 'x_not_in_column_order': 0.1,
                                  'y=str': 0.05, 'y=int': 0.05, 'y=float': 0.05, 'y=dt': 0.05, 'y=mixed': 0.1}),
 ]
